@@ -135,3 +135,99 @@ Proof.
     apply Rplus_le_reg_r with (scov Y X l * scov Y X l / scov X X l). ring_simplify.
     apply Rplus_le_reg_l with (- scov Y Y l). ring_simplify. exact H2.
 Qed.
+
+(* ---------- Z test: power never decreases when n grows (effect in the direction of the alternative) ---------- *)
+Section PowerInN.
+Variable fam : dist_family R.
+Hypothesis HF : fam_laws fam.
+Variables (cfg : rom) (v : R).
+Hypothesis Hr : 0 < cfg_ratio cfg.
+Hypothesis Hv : 0 < v.
+Hypothesis Ha : 0 < cfg_alpha cfg < 1.
+Hypothesis Hz : cfg_use_t cfg = false.
+Notation r := (cfg_ratio cfg).
+
+Definition se_n (n : R) : R := se_of (cfg_equal_var cfg) v (n / (1 + r)) v (n * r / (1 + r)).
+
+(* the standard error as a function of the total sample size: sqrt(v (1+r)^2 / (n r)), pooled or not *)
+Lemma se_n_closed n : 1 < n / (1 + r) -> 1 < n * r / (1 + r) -> se_n n = sqrt (v * ((1 + r) * (1 + r)) / (n * r)).
+Proof.
+  intros Hc Ht. unfold se_n. rewrite se_of_plain by lra. unfold se_plain, pooled_var.
+  assert (Hn : 0 < n).
+  { assert (0 < n / (1 + r)) by lra. assert (H1 : n = n / (1 + r) * (1 + r)) by (field; lra).
+    rewrite H1. apply Rmult_lt_0_compat; lra. }
+  destruct (cfg_equal_var cfg); f_equal; field; repeat split; try lra.
+  assert (n / (1 + r) + n * r / (1 + r) = n) by (field; lra).
+  intros E. assert (n * r + n - 2 * (1 + r) = (1 + r) * (n / (1 + r) + n * r / (1 + r) - 2)) by (field; lra). nra.
+Qed.
+
+Lemma se_n_decreasing n1 n2 : 1 < n1 / (1 + r) -> 1 < n1 * r / (1 + r) -> n1 < n2 -> se_n n2 < se_n n1.
+Proof.
+  intros Hc Ht Hlt.
+  assert (Hn1 : 0 < n1).
+  { assert (0 < n1 / (1 + r)) by lra. assert (H1 : n1 = n1 / (1 + r) * (1 + r)) by (field; lra).
+    rewrite H1. apply Rmult_lt_0_compat; lra. }
+  assert (Hinv : 0 < / (1 + r)) by (apply Rinv_0_lt_compat; lra).
+  assert (Hc2 : 1 < n2 / (1 + r)).
+  { assert (n1 / (1 + r) < n2 / (1 + r)) by (apply Rmult_lt_compat_r; assumption). lra. }
+  assert (Ht2 : 1 < n2 * r / (1 + r)).
+  { assert (n1 * r / (1 + r) < n2 * r / (1 + r)).
+    { apply Rmult_lt_compat_r; [exact Hinv|]. apply Rmult_lt_compat_r; assumption. } lra. }
+  rewrite !se_n_closed by assumption.
+  assert (Hk : 0 < v * ((1 + r) * (1 + r))) by (apply Rmult_lt_0_compat; [exact Hv | apply Rmult_lt_0_compat; lra]).
+  apply sqrt_lt_1_alt. split.
+  - apply Rlt_le. apply Rdiv_lt_0_compat; [exact Hk | apply Rmult_lt_0_compat; lra].
+  - unfold Rdiv. apply Rmult_lt_compat_l; [exact Hk|]. apply Rinv_lt_contravar.
+    + apply Rmult_lt_0_compat; apply Rmult_lt_0_compat; lra.
+    + apply Rmult_lt_compat_r; assumption.
+Qed.
+
+Lemma se_n_pos n : 1 < n / (1 + r) -> 1 < n * r / (1 + r) -> 0 < se_n n.
+Proof. intros Hc Ht. unfold se_n. apply se_of_pos; lra. Qed.
+
+Lemma power_z_mono_n_greater n1 n2 delta : cfg_alternative cfg = Greater -> 0 < delta ->
+  1 < n1 / (1 + r) -> 1 < n1 * r / (1 + r) -> n1 < n2 ->
+  rom_power_from_stats fam cfg v n1 delta < rom_power_from_stats fam cfg v n2 delta.
+Proof.
+  intros Halt Hd Hc Ht Hlt.
+  assert (Hinv : 0 < / (1 + r)) by (apply Rinv_0_lt_compat; lra).
+  assert (Hc2 : 1 < n2 / (1 + r)).
+  { assert (n1 / (1 + r) < n2 / (1 + r)) by (apply Rmult_lt_compat_r; assumption). lra. }
+  assert (Ht2 : 1 < n2 * r / (1 + r)).
+  { assert (Hn1 : 0 < n1).
+    { assert (0 < n1 / (1 + r)) by lra. assert (H1 : n1 = n1 / (1 + r) * (1 + r)) by (field; lra).
+      rewrite H1. apply Rmult_lt_0_compat; lra. }
+    assert (n1 * r / (1 + r) < n2 * r / (1 + r)).
+    { apply Rmult_lt_compat_r; [exact Hinv|]. apply Rmult_lt_compat_r; assumption. } lra. }
+  rewrite (power_z_greater fam HF cfg v n1 Ha delta Hz Halt).
+  rewrite (power_z_greater fam HF cfg v n2 Ha delta Hz Halt).
+  fold (se_n n1) (se_n n2).
+  pose proof (se_n_decreasing n1 n2 Hc Ht Hlt) as Hse. pose proof (se_n_pos n2 Hc2 Ht2) as Hp2. pose proof (se_n_pos n1 Hc Ht) as Hp1.
+  assert (Hq : delta / se_n n1 < delta / se_n n2).
+  { unfold Rdiv. apply Rmult_lt_compat_l; [exact Hd|]. apply Rinv_lt_contravar; [apply Rmult_lt_0_compat; assumption | exact Hse]. }
+  pose proof (L_mono _ (F_norm fam HF 0) (ppf (norm_ fam 0) (1 - cfg_alpha cfg) - delta / se_n n2)
+                (ppf (norm_ fam 0) (1 - cfg_alpha cfg) - delta / se_n n1) ltac:(lra)). lra.
+Qed.
+
+Lemma power_z_mono_n_less n1 n2 delta : cfg_alternative cfg = Less -> delta < 0 ->
+  1 < n1 / (1 + r) -> 1 < n1 * r / (1 + r) -> n1 < n2 ->
+  rom_power_from_stats fam cfg v n1 delta < rom_power_from_stats fam cfg v n2 delta.
+Proof.
+  intros Halt Hd Hc Ht Hlt.
+  assert (Hinv : 0 < / (1 + r)) by (apply Rinv_0_lt_compat; lra).
+  assert (Hc2 : 1 < n2 / (1 + r)).
+  { assert (n1 / (1 + r) < n2 / (1 + r)) by (apply Rmult_lt_compat_r; assumption). lra. }
+  assert (Ht2 : 1 < n2 * r / (1 + r)).
+  { assert (n1 * r / (1 + r) < n2 * r / (1 + r)).
+    { apply Rmult_lt_compat_r; [exact Hinv|]. apply Rmult_lt_compat_r; assumption. } lra. }
+  rewrite !power_textbook, Halt. unfold alt_of, null_of. rewrite Hz.
+  fold (se_n n1) (se_n n2).
+  rewrite (F_norm_shift fam HF (delta / se_n n1)), (F_norm_shift fam HF (delta / se_n n2)).
+  pose proof (se_n_decreasing n1 n2 Hc Ht Hlt) as Hse. pose proof (se_n_pos n2 Hc2 Ht2) as Hp2. pose proof (se_n_pos n1 Hc Ht) as Hp1.
+  assert (Hq : delta / se_n n2 < delta / se_n n1).
+  { assert (- delta / se_n n1 < - delta / se_n n2).
+    { unfold Rdiv. apply Rmult_lt_compat_l; [lra|]. apply Rinv_lt_contravar; [apply Rmult_lt_0_compat; assumption | exact Hse]. }
+    unfold Rdiv in *. lra. }
+  apply (L_mono _ (F_norm fam HF 0)). lra.
+Qed.
+End PowerInN.
